@@ -147,7 +147,7 @@ func TestC03(t *testing.T) {
 		})
 		// 3b. member counts round every power of two and round decimal size (per-reader chunks,
 		// size hints and growth steps have thresholds there), flat and two levels deep
-		if e.enumStage("sizes", "arrays and objects with n members for n in 0..40 and 2^k-1, 2^k, 2^k+1 up to 4097, 1000, 10000: flat scalars, n small arrays, n small objects, and a small-big-small sibling pattern", true) {
+		if e.enumStage("sizes", "arrays and objects with n members for n in 0..40 and 2^k-1, 2^k, 2^k+1 up to 4097, 1000, 10000, 65535..65537 (thorough also 100000, 2^20-1..2^20+1): flat scalars, n small arrays, n small objects, and a small-big-small sibling pattern", true) {
 			var ns []int
 			for n := 0; n <= 40; n++ {
 				ns = append(ns, n)
@@ -155,7 +155,10 @@ func TestC03(t *testing.T) {
 			for k := 6; k <= 12; k++ {
 				ns = append(ns, 1<<uint(k)-1, 1<<uint(k), 1<<uint(k)+1)
 			}
-			ns = append(ns, 100, 1000, 10000)
+			ns = append(ns, 100, 1000, 10000, 1<<16-1, 1<<16, 1<<16+1)
+			if e.cfg.Thorough() {
+				ns = append(ns, 100000, 1<<20-1, 1<<20, 1<<20+1)
+			}
 			var sb strings.Builder
 			idx := 0
 		sizes:
